@@ -1,11 +1,16 @@
 #!/usr/bin/env python3
 """Print the rows of DESIGN.md §10.0 from the evidence files of the last quick runs."""
 import json
+def n(x): return f"{x:,}".replace(",", " ")
 for k in range(1, 21):
     i = f"C{k:02d}"
     d = json.load(open(f"/verif/evidence/{i}.json"))
-    camps = d["coverage"]["campaigns"]
-    names = ", ".join(("regression corpus" if c["name"] == "regression-corpus" else c["name"]) + (" (exhaustive)" if c.get("kind") == "exhaustive" and c.get("complete") else "") for c in camps)
-    ev = sum(c.get("evaluations", 0) for c in camps)
-    nt = sum(c.get("new_distinct_nontrivial", 0) for c in camps)
-    print(f"| {i} | {names} | {ev:,} | {nt:,} | {d['wall_s']:.0f} s | {d['tier']} |".replace(",", " ").replace("  ", ", ").replace("|, ", "| "))
+    c = d["coverage"]
+    names = []
+    for x in c["campaigns"]:
+        nm = "regression corpus" if x["name"] == "regression-corpus" else x["name"]
+        if x["name"] in c.get("exhaustive_campaigns", []):
+            nm += " (exhaustive)"
+        if nm not in names:
+            names.append(nm)
+    print(f"| {i} | {', '.join(names)} | {n(c['evaluations'])} | {n(c['distinct_nontrivial'])} | {d['wall_s']:.0f} s |")
